@@ -22,7 +22,7 @@ RULE = (
 )
 TIERS = {"quick": {"shards": 8, "n": 700, "budget_s": 200}, "thorough": {"shards": 16, "n": 6000, "budget_s": 2700}}
 FLOOR = {"quick": 200, "thorough": 10000}
-REQUIRED_LABELS = {"quick": ["same-name-pair", "multi-pair:same-function", "pair:attr->attr", "pair:arg->arg", "pair:arg->kwarg", "pair:attr->arg", "wrap", "eval", "target-not-first", "target-after-self", "via-cli", "via-api"], "thorough": []}
+REQUIRED_LABELS = {"quick": ["same-name-pair", "multi-pair:same-function", "pair:attr->attr", "pair:arg->arg", "pair:arg->kwarg", "pair:attr->arg", "wrap", "eval", "target-not-first", "target-after-self", "via-cli", "via-api", "duplicate-definition:plain", "duplicate-definition:try-except"], "thorough": []}
 ASSUMPTIONS = [
     "the new name never collides with another parameter of the target function (a collision would be the generator's duplicate, not cdd's)",
     "paths cdd cannot resolve raise; the oracle for a raise is 'output and input files byte-identical'",
@@ -133,7 +133,20 @@ def case_strategy(draw):
         if forced is not None:
             ip, op = forced
         wrap = draw(st.sampled_from([None, None, "Optional[{output_param}]", "Union[{output_param}, str]"]))
-    return {"isrc": isrc, "osrc": osrc, "ip": ip, "op": op, "wrap": wrap, "eval": ev, "cli": draw(st.integers(0, 2)) == 0}
+    dup = None
+    if op is not None and op[1] == "attr" and draw(st.integers(0, 2)) == 0:
+        # the output module defines the target's class a second time (compat idiom `try: ... except ImportError:
+        # class C ...`, or a plain later re-definition): both definitions answer to the same dotted path, the
+        # first one is the selected location, the other one is "every other definition" and must stay as it is
+        cname = op[0].split(".")[0]
+        attrs = [q for q in opaths if q[1] == "attr" and q[0].split(".")[0] == cname]
+        body = ["    %s: %s = %s" % (q[2][0], q[2][1], q[2][2]) for q in attrs]
+        dup = draw(st.sampled_from(["plain", "try-except"]))
+        if dup == "plain":
+            osrc += "\n\nclass %s(object):\n%s\n" % (cname, "\n".join(body))
+        else:
+            osrc += "\n\ntry:\n    import json\nexcept ImportError:\n\n    class %s(object):\n%s\n" % (cname, "\n".join("    " + b for b in body))
+    return {"isrc": isrc, "osrc": osrc, "ip": ip, "op": op, "wrap": wrap, "eval": ev, "cli": draw(st.integers(0, 2)) == 0, "dup": dup}
 
 
 def strategy(ctx):
@@ -207,6 +220,8 @@ def oracle(case):
         r.label("target-after-self")
     if not ev and ip[2][0] == op[2][0]:
         r.label("same-name-pair")
+    if case.get("dup"):
+        r.label("duplicate-definition:" + case["dup"])
     d = tempfile.mkdtemp(prefix="c13_", dir="/dev/shm" if os.path.isdir("/dev/shm") else None)
     try:
         i, o = os.path.join(d, "i.py"), os.path.join(d, "o.py")
